@@ -222,6 +222,16 @@ func (r *Run) Finish() {
 	fmt.Printf("%s tier=%s seed=%d evaluations=%d distinct=%d violations=%d inconclusive=%d wall=%.1fs\n",
 		r.ID, r.Tier, r.Seed, r.Evals, r.nDistinct(), len(r.viol), len(r.inconcl), wall)
 	if len(r.viol) > 0 {
+		kc := map[string]int{}
+		for _, v := range r.viol {
+			kc[v.Key]++
+		}
+		ks := []string{}
+		for k, n := range kc {
+			ks = append(ks, fmt.Sprintf("%s x%d", k, n))
+		}
+		sort.Strings(ks)
+		fmt.Printf("violation keys: %s\n", strings.Join(ks, "; "))
 		seen := map[string]bool{}
 		for _, v := range r.viol {
 			if v.Replay == "" || seen[v.Key] {
